@@ -81,6 +81,10 @@ DigestFor(s, now) ==
   [x \in (DOMAIN s.ns) \ SchedOf(s, now) |-> DigestOf(s.ns[x])]
 
 Own(n) == st[n].ns[n]
+\* total versions for the formulas: a node that lost its own state (possible only in a defective
+\* implementation observed through a trace) counts as holding nothing, so that the formulas FAIL instead of erring
+OwnIn(s, n) == IF n \in DOMAIN s.ns THEN s.ns[n] ELSE NewCopy
+OwnT(n) == OwnIn(st[n], n)
 
 -------------------------------------------------------------------------------
 \* Owner API on self_node_state()
@@ -450,15 +454,15 @@ C03_Integrity ==
   /\ \A p \in Copies :
        LET c == st[p[1]].ns[p[2]] IN
        /\ \A k \in DOMAIN c.kv : InLedger(p[2], k, c.kv[k].val, c.kv[k].ver, c.kv[k].st)
-       /\ c.max <= Own(p[2]).max
-       /\ c.hb <= Own(p[2]).hb
+       /\ c.max <= OwnT(p[2]).max
+       /\ c.hb <= OwnT(p[2]).hb
   /\ \A m \in net : m.t \in {"SynAck", "Ack"} =>
        \A x \in DOMAIN m.delta :
          /\ \A i \in 1..Len(m.delta[x].kvs) :
               LET e == m.delta[x].kvs[i] IN InLedger(x, e.k, e.v, e.ver, e.st)
-         /\ m.delta[x].max <= Own(x).max
+         /\ m.delta[x].max <= OwnT(x).max
   /\ \A m \in net : m.t \in {"Syn", "SynAck"} =>
-       \A x \in DOMAIN m.digest : m.digest[x].max <= Own(x).max /\ m.digest[x].hb <= Own(x).hb
+       \A x \in DOMAIN m.digest : m.digest[x].max <= OwnT(x).max /\ m.digest[x].hb <= OwnT(x).hb
 
 \* C04 -- frontiers and versions only move forward (action property) and honest messages never abort
 \* trace files concatenate executions; a "Reset" event re-initialises everything
@@ -480,7 +484,7 @@ Effective(c, op, k, v) ==
     [] op = "DeleteTtl" -> Has(c.kv, k)
 C04_FreshVersion ==
   [][ Resetting \/ (LastAct.a \in {"Set", "SetTtl", "Delete", "DeleteTtl"} =>
-        LET n == LastAct.n  c1 == st[n].ns[n]  c2 == st'[n].ns[n] IN
+        LET n == LastAct.n  c1 == OwnIn(st[n], n)  c2 == OwnIn(st'[n], n) IN
         IF Effective(c1, LastAct.a, LastAct.k, LastAct.v)
         THEN c2.max = c1.max + 1 /\ LastAct.k \in DOMAIN c2.kv /\ c2.kv[LastAct.k].ver = c2.max /\ c2.gc = c1.gc
         ELSE c2 = c1) ]_<<vars, hist>>
@@ -490,14 +494,15 @@ C04_NoPanic == ~panic
 ActN == IF "n" \in DOMAIN LastAct THEN LastAct.n ELSE ""
 C05_OwnUntouched ==
   [][ Resetting \/ \A n \in Node :
-        LET c1 == st[n].ns[n]  c2 == st'[n].ns[n] IN
+        LET c1 == OwnIn(st[n], n)  c2 == OwnIn(st'[n], n) IN
+        /\ (n \in DOMAIN st[n].ns => n \in DOMAIN st'[n].ns)      \* a node never forgets itself
         /\ (LastAct.a \notin {"Set", "SetTtl", "Delete", "DeleteTtl", "Gc"} \/ ActN # n) =>
               (c2.kv = c1.kv /\ c2.max = c1.max /\ c2.gc = c1.gc)
         /\ (LastAct.a = "Gc" /\ ActN = n) => (c2.max = c1.max /\ c2.gc >= c1.gc)
         /\ c2.hb - c1.hb \in {0, 1}
         /\ (c2.hb # c1.hb) => (LastAct.a \in {"Process", "Heartbeat", "Inject", "Recv"} /\ ActN = n) ]_<<vars, hist>>
 C05_OwnerAhead ==
-  \A p \in Copies : LET c == st[p[1]].ns[p[2]]  o == Own(p[2]) IN
+  \A p \in Copies : LET c == st[p[1]].ns[p[2]]  o == OwnT(p[2]) IN
      c.max <= o.max /\ (c.gc <= o.gc \/ c.gc <= o.max)
 
 \* C20 -- the catch-up callback fires exactly when a processed message reset a copy
